@@ -23,11 +23,13 @@ def run(ctx):
     names = ["A", "B", "a", "", "A:1", "DEPT", "GR"]
     nrand = 20000 if thorough else 1500
     for case in (None, "preserve", "upper", "lower"):
-        # sections read with case normalisation compare session names case-insensitively; whether names that
-        # differ only in case stay distinct is C13's business, so this alphabet has no case variants
-        alphabet = names if case in (None, "preserve") else ["A", "B", "", "DEPT", "GR", "X"]
+        # sections read with case normalisation compare names case-insensitively: names that differ only in case are
+        # duplicates there (numbered like any others: the projection logs the comparison key `of`), and every key must
+        # still address its own curve
+        # (literal 'X:k' names are left out there: next to case variants they collide the way finding D14 describes)
+        alphabet = names if case in (None, "preserve") else ["A", "B", "", "DEPT", "GR", "X", "a", "gr"]
         if case == "lower":
-            alphabet = [x.lower() for x in alphabet]
+            alphabet = [x.swapcase() for x in alphabet]
         t, m = curves.random_histories(ctx, rng, nrand if case is None else nrand // 4, 8, alphabet, read_case=case)
         traces += t
         meta += m
